@@ -338,11 +338,9 @@ def Store.drop (s : Store) (n : String) : Store × Out :=
           pending := s.pending ++ rss.map fun rs => (tid, rs) }, .ok 1)
 
 /-- flushes one mem-rowset per part: fresh id, directory, files -/
-def flushParts (d : TableDef) (tid : Nat) : List (List Row) → Nat → List ((Nat × Nat) × List Row) →
-    List Nat → Nat × List ((Nat × Nat) × List Row) × List Nat
-  | [], next, dirs, ids => (next, dirs, ids)
-  | p :: ps, next, dirs, ids =>
-      flushParts d tid ps (next + 1) (dirs ++ [((tid, next), memFlush d p)]) (ids ++ [next])
+def flushDirs (d : TableDef) (tid : Nat) : List (List Row) → Nat → List ((Nat × Nat) × List Row)
+  | [], _ => []
+  | p :: ps, next => ((tid, next), memFlush d p) :: flushDirs d tid ps (next + 1)
 
 /-- `InsertExecutor` + `append_inner`/`flush_rowset`/`commit_inner`; `parts` = how the executor's
 chunks ended up in mem-rowsets (ANY partition; the implementation's depends on chunk sizes and
@@ -353,10 +351,10 @@ def Store.insert (s : Store) (n : String) (parts : List (List Row)) : Store × O
   | some tid => match lookup tid s.tables with
     | none => (s, .err "no-table")
     | some d =>
-      let (next, dirs, ids) := flushParts d tid parts s.nextRs s.dirs []
-      ({ (s.commit (ids.map fun rs => Rec.addRowSet tid rs)) with
-          nextRs := next, dirs := dirs
-          rowsets := s.rowsets ++ ids.map fun rs => (tid, rs) }, .ok (parts.map List.length).sum)
+      let nd := flushDirs d tid parts s.nextRs
+      ({ (s.commit (nd.map fun x => Rec.addRowSet tid x.1.2)) with
+          nextRs := s.nextRs + parts.length, dirs := s.dirs ++ nd
+          rowsets := s.rowsets ++ nd.map (·.1) }, .ok (parts.map List.length).sum)
 
 /-- DVs written by `commit_inner` for the buffered handlers, one per touched row-set -/
 def mkDvs (tid : Nat) : List (Nat × List Nat) → Nat → List DvE
@@ -592,6 +590,15 @@ def MemTable.scanH (t : MemTable) : List (Nat × Row) :=
 
 def MemTable.scan (t : MemTable) : List Row := t.scanH.map (·.2)
 
+/-- `InMemoryTransaction::commit` of an INSERT: the buffered chunks are appended -/
+def MemTable.insert (t : MemTable) (parts : List (List Row)) : MemTable := { t with chunks := t.chunks ++ parts }
+
+/-- `DeleteExecutor` on the memory engine: handlers = global row indices of the visible rows that
+satisfy the predicate; commit adds them to `deleted_rows` -/
+def MemTable.delete (t : MemTable) (p : Row → Bool) : MemTable × Nat :=
+  let hs := (t.scanH.filter fun x => p x.2).map (·.1)
+  ({ t with deleted := t.deleted ++ hs }, hs.length)
+
 def MemStore.tableId? (s : MemStore) (n : String) : Option Nat :=
   match s.cat.find? n with
   | some e => if e.kind == .table then some e.id else none
@@ -626,14 +633,12 @@ def MemStore.step (s : MemStore) : Op → MemStore × Out
     | none => (s, .err "no-table")
     | some tid => match lookup tid s.tables with
       | none => (s, .err "no-table")
-      | some t => (s.setTable tid { t with chunks := t.chunks ++ parts }, .ok parts.flatten.length)
+      | some t => (s.setTable tid (t.insert parts), .ok parts.flatten.length)
   | .delete n p => match s.tableId? n with
     | none => (s, .err "no-table")
     | some tid => match lookup tid s.tables with
       | none => (s, .err "no-table")
-      | some t =>
-        let hs := (t.scanH.filter fun x => p x.2).map (·.1)
-        (s.setTable tid { t with deleted := t.deleted ++ hs }, .ok hs.length)
+      | some t => (s.setTable tid (t.delete p).1, .ok (t.delete p).2)
   | .compact _ => (s, .ok 0)
   | .vacuum => (s, .ok 0)
   | .reopen => (s, .ok 0)   -- not meaningful for the memory engine; never generated for it
